@@ -342,6 +342,30 @@ pub fn gen_case(rng: &mut Rng, max_classes: u64, max_members: u64) -> (GenCfg, V
     (cfg, m)
 }
 
+/// A huge mapping: more than 65 536 classes and more than 65 536 members (16-bit limits, large
+/// offsets, string section of several MiB). Deterministic from the rng.
+pub fn gen_huge(rng: &mut Rng) -> Vec<u8> {
+    let n_classes = 66_000 + rng.range(0, 3_000);
+    let mut out: Vec<u8> = Vec::with_capacity(8 << 20);
+    for c in 0..n_classes {
+        out.extend_from_slice(format!("com.example.pkg{}.Type{} -> p{}.c{}:\n", c % 97, c, c % 53, c).as_bytes());
+        if c % 11 == 0 {
+            out.extend_from_slice(format!("# {{\"id\":\"sourceFile\",\"fileName\":\"Type{}.kt\"}}\n", c).as_bytes());
+        }
+        let members = rng.range(0, 3);
+        for m in 0..members {
+            let s = 1 + rng.range(0, 50);
+            let e = s + rng.range(0, 5);
+            match rng.below(3) {
+                0 => out.extend_from_slice(format!("    {}:{}:void method{}(int):{}:{} -> {}\n", s, e, m, 100 + s, 100 + e, *rng.pick(&["a", "b", "c"])).as_bytes()),
+                1 => out.extend_from_slice(format!("    {}:{}:int x.Inl{}.inl():{} -> a\n    {}:{}:void outer{}():{} -> a\n", s, s, c % 7, 7 + m, s, s, m, 200 + s).as_bytes()),
+                _ => out.extend_from_slice(format!("    java.lang.String plain{}(java.lang.Object,int) -> d\n", m).as_bytes()),
+            }
+        }
+    }
+    out
+}
+
 /// Like `gen_case`, but without wide classes (for enumerations that are quadratic in file size).
 pub fn gen_case_small(rng: &mut Rng, max_classes: u64, max_members: u64) -> (GenCfg, Vec<u8>) {
     let mut cfg = GenCfg::swarm(rng, max_classes, max_members);
